@@ -209,6 +209,41 @@ def iter_simple(fns, src, nmax, which='next', name=None):
     return finish(res, ex, t0, paths, unw)
 
 
+@guarded
+def iter_into_iter(fns, src, nmax, name=None):
+    """IntoIterator for GenericArray, ALL 64-bit N: the new iterator holds all N elements - observed through the crate's own len() and
+    size_hint() and the element-ownership ledger (whatever the cursor fields are called or typed), then dropped by its owner."""
+    N, J = syms('N', 'J')
+    res = Result(name or 'iter.into_iter', ['C06', 'C03'], 'all 64-bit N; loop-free')
+    ex = Exec(fns, src, J, N, nmax=nmax)
+    A = Arr('A', N)
+    st = new_state()
+    st.status[A] = LIVE
+    fn = ex.pick(ex.index[('IntoIterator', 'GenericArray', 'into_iter')])
+    t0, paths, unw = time.time(), 0, 0
+    for (s2, kind, val) in ex.run_fn(st, fn, [A]):
+        paths += 1
+        unw += kind == 'unwind'
+        if kind != 'ret':
+            continue
+        it = s2.new_cell(val)
+        for (s3, k3, v3) in ex.run_fn(s2, ex.pick(ex.index[('ExactSizeIterator', 'GenericArrayIter', 'len')]), [Ref(it, ())]):
+            if k3 == 'ret':
+                ex.require(s3, v3 == N, 'into_iter: len() of the fresh iterator is not N', 'post(len)')
+            lst = ex.index.get(('Iterator', 'GenericArrayIter', 'size_hint'))
+            for (s4, k4, v4) in (ex.run_fn(s3, ex.pick(lst), [Ref(it, ())]) if lst else []):
+                if k4 == 'ret':
+                    ex.require(s4, z3.And(v4[0] == N, v4[1].fields[0] == N), 'into_iter: size_hint() of the fresh iterator is not (N, Some(N))', 'post(size_hint)')
+                s4.events.append('owner drops the iterator')
+                for (s5, k5, _) in ex.run_fn(s4, ex.pick(ex.index[('Drop', 'GenericArrayIter', 'drop')]), [Ref(it, ())]):
+                    if k5 == 'ret':
+                        leftovers = [a for a in s5.status if a.name.startswith(('A', 'Moved', 'Copy'))]
+                        for a in leftovers:
+                            ex.require(s5, z3.Implies(z3.And(ULT(J, N), nd_T(ex)), z3.Or(s5.status[a] == DROPPED, s5.status[a] == UNINIT, s5.status[a] == EXTERN, s5.status[a] == STORED)),
+                                       'element neither dropped nor handed on when a fresh iterator is dropped (leak)', 'end')
+    return finish(res, ex, t0, paths, unw)
+
+
 KNOWN_ITER_METHODS = {'next', 'size_hint', 'count', 'last', 'nth', 'fold', 'next_back', 'nth_back', 'rfold', 'len', 'clone', 'clone_from', 'drop', 'fmt',
                       'as_slice', 'as_mut_slice'}
 
